@@ -278,6 +278,12 @@ func MonC16() *Mon {
 		AfterCall: func(n *Node, c *Call) {
 			// a notification during the extended wait must produce the proposal within the call (at the primary)
 			if c.Kind == CNewTransaction && c.PreSub && n.D.IsPrimary() && !c.PreBlockSent && !n.D.BlockSent() {
+				if f := n.D.VerifFlags(); f.RttAvg > 0 {
+					n.W.Stat("c16_notified_primary_has_rtt_estimate")
+					if f.LastBlockIndex+1 == n.D.BlockIndex || f.LastBlockIndex == n.D.BlockIndex {
+						n.W.Stat("c16_notified_primary_has_rtt_estimate_and_took_part_before")
+					}
+				}
 				sent := false
 				for _, p := range n.Own[n.D.BlockIndex] {
 					if p.T == dbft.PrepareRequestType && p.V == n.D.ViewNumber {
